@@ -16,6 +16,17 @@ CLAIMED = {
          "DESIGN.md section 6 C17"),
 }
 
+CLAIMED["C01"] = ("model_checking",
+  "TLA+ AvroSystem (writer/crash/reader state machine) and AvroWire theorems model-checked by TLC; recorded encode->ReadFile round trips trace-validated by TLC against GoModel!SameValue (Trace_Codec)",
+  "TLC checks on the abstract writer->bytes->reader system that, for every call history, block size and record size within the bounds, the reader delivers exactly the encoded records in order, and on the byte-level reference that decoding inverts every legal encoding. Every recorded round trip of the real code (8 compile-time types through Encoder[T], seeded random reflect.StructOf types through SchemaForType+Codec+FileWriter, three codecs, block sizes 0..2^20, flush patterns, four reader kinds, value and pointer targets, one witness per nullable/pointer/collection shape) is then judged by TLC: same count, same order, equal up to the documented normalisations, checked in the callback and again after the whole read.",
+  "Trusted: TLC, Json module, harness/project.go. Type and value spaces are sampled by a seeded generator (VERIF_SEED), not enumerated.",
+  "DESIGN.md section 6 C01")
+CLAIMED["C02"] = ("model_checking",
+  "TLA+ reference decoder written from the Avro 1.8 specification (AvroWire, Container) model-checked by TLC; the bytes the encoder produced are parsed and decoded by TLC alone and compared with the inputs through GoModel!Rep (Trace_Codec)",
+  "The oracle is the TLA+ container parser and binary decoder, which see only the output bytes and the embedded schema (parsed by encoding/json, not by the library): magic, metadata (schema, codec), sync markers, per-block count and byte length exact, payload decodes to exactly count datums with nothing left over, each datum is the value written with nil pointer / invalid null.* / zero omitempty scalar in the null branch and everything else in the non-null branch.",
+  "Trusted: TLC, Json module, harness/project.go, and compress/flate + golang/snappy + hash/crc32 as the environment's decompression oracle (TLA+ does not interpret compressed bytes). The text of time.Time strings is not yet compared with the instant (only that a string was written).",
+  "DESIGN.md section 6 C02")
+
 NOT_APPLICABLE = {}
 
 def main():
